@@ -14,6 +14,8 @@ mod extra;
 mod hist;
 #[path = "c03/sized.rs"]
 mod sized;
+#[path = "c03/snaps.rs"]
+mod snaps;
 
 // ---------------------------------------------------------------- ordered JSON AST (numbers = token text)
 #[derive(Clone, Debug, PartialEq)]
@@ -1102,7 +1104,7 @@ fn deep_frames() -> Vec<(String, Event)> {
 fn main() {
     let a = parse_args();
     let mut res = RunResult::new("C03", &a);
-    res.rule = "(a) one case = one JSON document for serde_json::from_str::<Event>, generated from the extracted schema (every variant x {all fields, minimal, random presence, explicit nulls} x aliases x unicode/large/nested/number corner values) plus one of 15 malformed/unusual variations, plus hand-built frames holding Some(Null) and deeply nested payloads, plus frames produced by the real provider path (SSE bytes -> SseDecoder -> EventFrameMapper, incl. float and deeply nested payloads), plus real log lines produced by the histories; the model decodes/re-encodes the same document inside Coq. (b) one history = 5-40 continuity operations, provider-less session runs (tool output chunks), tool tasks (output deltas while running), cache-loss steps (continuity_streams/ or one thread's sidecar removed while the store lives) and replay_events calls on the real store; restarts of the store and periods in which the log's writer sits on a full disk (events.jsonl is a symlink that points at /dev/full while the writer is opened: every write op returns an error); the views are compared DURING the history (after every frame a live subscriber has, once its emit step is over, a fresh reader of events.jsonl / the sidecar must find it; replay_events = log; after EVERY op, failed ones included, every frame a fresh reader finds under continuity_streams/ must be in events.jsonl) and frame for frame at the end; 5 fixed regression histories run first. (d) 4 OS threads append to one thread of a real store at the same time (free running): live order = order in events.jsonl = sidecar = replay_events and the log replays. (e) one session of 17 005 frames (ls over 17 000 files): live = log = snapshot. (f) one session run on an engine whose log writer sits on a full disk (known finding W3). (g) frames of EVERY size through the real emit paths: one store, ~45 streams (quick) whose payload is a unit of one of 16 character classes (ASCII, quote, backslash, newline, NUL / control characters, DEL, 2- / 3- / 4-byte UTF-8, U+2028, U+FFFD, noncharacters, a mixed unit) repeated to 1 B .. 5.3 MB as written (anchors on both sides of 8 KiB, 64 KiB, 1 / 2 / 4 MiB + sizes drawn log-uniformly from the seed), entering as a prompt (session_started.input, output_text_delta), tool arguments (tool_started.args, also nested 124 deep), one tool output chunk (tool_stdout), a provider event from a scripted OpenResponses server (provider_event raw + data, output_text_delta), task arguments (POST /tasks: tool_task_spawned.args) and a continuity message; a live subscriber attached before each run; per stream live = snapshot (sidecar, replay_events) = the stream's lines in events.jsonl, nothing live or in the snapshot that is not in the log, at the end replay_validated of the whole log and the continuity written before; a failing size is bisected; every stream also goes to the model as its frames with long strings run-length folded (byte length + code-point sum of each line and the views of each frame compared). (h) frames of six types x sizes up to 4.2 MB appended to a real EventLog: append must return Ok (a refusal is a violation), a fresh reader finds the line; one document per frame type with a 70 KB .. 2.3 MB field through the codec oracle and the store oracle. (c) every accepted document is appended to a real EventLog and looked up by a fresh reader after append returns. non-trivial = accepted documents with at least one optional/vector/Value field or a variation; distinct by document text".into();
+    res.rule = "(a) one case = one JSON document for serde_json::from_str::<Event>, generated from the extracted schema (every variant x {all fields, minimal, random presence, explicit nulls} x aliases x unicode/large/nested/number corner values) plus one of 15 malformed/unusual variations, plus hand-built frames holding Some(Null) and deeply nested payloads, plus frames produced by the real provider path (SSE bytes -> SseDecoder -> EventFrameMapper, incl. float and deeply nested payloads), plus real log lines produced by the histories; the model decodes/re-encodes the same document inside Coq. (b) one history = 5-40 continuity operations, provider-less session runs (tool output chunks), tool tasks (output deltas while running), cache-loss steps (continuity_streams/ or one thread's sidecar removed while the store lives) and replay_events calls on the real store; restarts of the store and periods in which the log's writer sits on a full disk (events.jsonl is a symlink that points at /dev/full while the writer is opened: every write op returns an error); the views are compared DURING the history (after every frame a live subscriber has, once its emit step is over, a fresh reader of events.jsonl / the sidecar must find it; replay_events = log; after EVERY op, failed ones included, every frame a fresh reader finds under continuity_streams/ must be in events.jsonl) and frame for frame at the end; 5 fixed regression histories run first. (d) 4 OS threads append to one thread of a real store at the same time (free running): live order = order in events.jsonl = sidecar = replay_events and the log replays. (e) one session of 17 005 frames (ls over 17 000 files): live = log = snapshot. (f) one session run on an engine whose log writer sits on a full disk (known finding W3). (g) frames of EVERY size through the real emit paths: one store, ~45 streams (quick) whose payload is a unit of one of 16 character classes (ASCII, quote, backslash, newline, NUL / control characters, DEL, 2- / 3- / 4-byte UTF-8, U+2028, U+FFFD, noncharacters, a mixed unit) repeated to 1 B .. 5.3 MB as written (anchors on both sides of 8 KiB, 64 KiB, 1 / 2 / 4 MiB + sizes drawn log-uniformly from the seed), entering as a prompt (session_started.input, output_text_delta), tool arguments (tool_started.args, also nested 124 deep), one tool output chunk (tool_stdout), a provider event from a scripted OpenResponses server (provider_event raw + data, output_text_delta), task arguments (POST /tasks: tool_task_spawned.args) and a continuity message; a live subscriber attached before each run; per stream live = snapshot (sidecar, replay_events) = the stream's lines in events.jsonl, nothing live or in the snapshot that is not in the log, at the end replay_validated of the whole log and the continuity written before; a failing size is bisected; every stream also goes to the model as its frames with long strings run-length folded (byte length + code-point sum of each line and the views of each frame compared). (i) 3 rounds of 6 sessions of one engine spawned at once whose snapshot writes are made to overlap (a rip_verif hook holds each write_snapshot at snap.created until all six have arrived): per session live = snapshot = log. (h) frames of six types x sizes up to 4.2 MB appended to a real EventLog: append must return Ok (a refusal is a violation), a fresh reader finds the line; one document per frame type with a 70 KB .. 2.3 MB field through the codec oracle and the store oracle. (c) every accepted document is appended to a real EventLog and looked up by a fresh reader after append returns. non-trivial = accepted documents with at least one optional/vector/Value field or a variation; distinct by document text".into();
     let schema_path = a.extra.get("schema").cloned().unwrap_or_else(|| "coq/Gen/event_schema.json".to_string());
     let schema: Value = serde_json::from_str(&std::fs::read_to_string(&schema_path).unwrap_or_else(|e| panic!("cannot read {schema_path}: {e}"))).expect("schema json");
     let variants: Vec<Value> = schema["variants"].as_array().cloned().unwrap_or_default();
@@ -1143,7 +1145,7 @@ fn main() {
 
     // ---- (g) frames of every size through the real emit paths; (h) EventLog::append takes every frame
     let mut sized_cases: Vec<(String, Value)> = vec![];
-    for mut x in [sized::sized_frames(a.seed, thorough), sized::append_ladder(a.seed, thorough)] {
+    for mut x in [sized::sized_frames(a.seed, thorough), sized::append_ladder(a.seed, thorough), snaps::concurrent_session_ends(if thorough { 12 } else { 3 })] {
         res.oracle_checks += x.oracle_checks;
         res.evaluations += x.evaluations;
         for (k, v) in &x.distribution {
